@@ -254,7 +254,7 @@ def store_property(prop, tier, seed, histories, level_note, replay=None, snap=Fa
 # ---------------------------------------------------------------- per-property entry points
 
 def hist_C01(tier):
-    n = 120 if tier == 'quick' else 3000
+    n = 90 if tier == 'quick' else 3000
 
     def gen(rng, path):
         for nb in BOUNDARY_SIZES:
